@@ -160,10 +160,16 @@ def signSplit2 (v : Str) : Bool × Str :=
   | '+' :: r => (false, r)
   | _ => (false, v)
 
+/-- the white space `int()` skips around the number: CPython turns *non-ASCII* `str.isspace`
+characters into blanks and then skips C `isspace` (U+0009..U+000D, U+0020) — the ASCII separators
+U+001C..U+001F, which `str.strip()` does remove, are not skipped (`int("5\x1f")` raises ValueError) -/
+def isIntSpace (c : Char) : Bool := Py.isSpace c && !(28 ≤ c.toNat && c.toNat ≤ 31)
+def intStrip (s : Str) : Str := Py.rstripBy isIntSpace (s.dropWhile isIntSpace)
+
 /-- `int(s)` for text: whitespace stripped, optional sign, decimal digits with `_` separators.
 Exact for latin-1 text (the only decimal digits below U+0100 are ASCII, by the generated table). -/
 def pyInt (s : Str) : Except String Int :=
-  let sb := signSplit2 (strip s)
+  let sb := signSplit2 (intStrip s)
   match intBody? sb.2 with
   | some ds => .ok (if sb.1 then - (digitsVal ds : Int) else (digitsVal ds : Int))
   | none => .error "ValueError"
@@ -780,6 +786,48 @@ def parseCsp (value : Str) : Dict Str :=
       let (directive, _, v) := partition ' ' policy
       dictSet d (strip directive) (strip v)
     else d
+
+/-! ### objects built by assignment histories (cache-control, CSP) -/
+
+/-- one step of building a cache-control object -/
+inductive CCOp where
+  /-- `cc.<property> = v` for the typed property `(key, ty)` (`_set_cache_value`) -/
+  | setTyped (key : Str) (ty : CCType) (v : CCVal)
+  /-- `del cc.<property>` (`_del_cache_value`: `if key in self: del self[key]`) -/
+  | delTyped (key : Str)
+  /-- `cc[key] = value` (a string) / `cc[key] = None` -/
+  | setItem (key : Str) (v : Option Str)
+  /-- `cc.pop(key, None)` / `del cc[key]` for a present key -/
+  | popItem (key : Str)
+  /-- `cc.clear()` -/
+  | clear
+  deriving DecidableEq, Repr
+
+def ccStep (d : Dict (Option Str)) : CCOp → Dict (Option Str)
+  | .setTyped key ty v => setCacheValue d key v ty
+  | .delTyped key => dictPop d key
+  | .setItem key v => dictSet d key v
+  | .popItem key => dictPop d key
+  | .clear => []
+
+def ccRun (d : Dict (Option Str)) (ops : List CCOp) : Dict (Option Str) := ops.foldl ccStep d
+
+/-- one step of building a `ContentSecurityPolicy` -/
+inductive CspOp where
+  /-- `csp.<property> = value` / `= None` (`_set_value`) and `csp[key] = value` -/
+  | set (key : Str) (v : Option Str)
+  /-- `del csp.<property>` (`_del_value`), `csp.pop(key, None)` -/
+  | del (key : Str)
+  | clear
+  deriving DecidableEq, Repr
+
+def cspOpStep (d : Dict Str) : CspOp → Dict Str
+  | .set key (some v) => dictSet d key v
+  | .set key none => dictPop d key
+  | .del key => dictPop d key
+  | .clear => []
+
+def cspRun (d : Dict Str) (ops : List CspOp) : Dict Str := ops.foldl cspOpStep d
 
 /-! ### base64 (CPython `binascii.a2b_base64` non-strict, `b2a_base64`) -/
 
